@@ -237,7 +237,7 @@ class Summariser:
             self.cache[fn.qualname] = s
         return s
 
-    def inlinable(self, fn: FunctionInfo | None) -> bool:
+    def inlinable(self, fn: FunctionInfo | None, tail: bool = False) -> bool:
         if fn is None or fn.qualname in KNOWN_FUNCTIONS:
             return False
         if fn.is_property or fn.is_classmethod:
@@ -251,7 +251,8 @@ class Summariser:
             if isinstance(n, (ast.Yield, ast.YieldFrom, ast.Await)):
                 return False
             # a `return` inside a loop cannot be spliced into the caller's path structure
-            if isinstance(n, (ast.For, ast.While, ast.AsyncFor)):
+            # (in tail position - `return helper(..)` - it can: the caller returns whatever the helper returns)
+            if isinstance(n, (ast.For, ast.While, ast.AsyncFor)) and not tail:
                 for sub in ast.walk(n):
                     if isinstance(sub, ast.Return):
                         return False
@@ -263,6 +264,63 @@ class Summariser:
 def _is_cache_decorator(d: str) -> bool:
     head = d.split("(")[0].rsplit(".", 1)[-1]
     return head in ("lru_cache", "cache")
+
+
+def _pure_test(t) -> bool:
+    """A test whose value cannot change along a path: built from parameters, constants and bound values
+    with identity / equality / order comparisons and isinstance - no attribute or item reads (objects are
+    mutated in place), no membership in containers, no calls."""
+    o = op(t)
+    if o in ("param", "const", "bv", "lv", "cls", "builtin", "ext", "func", "gconst"):
+        return True
+    if o == "cmp":
+        return t[1] in ("is", "==", "<", "<=", ">", ">=") and _pure_test(t[2]) and _pure_test(t[3])
+    if o == "call" and t[1] == ("builtin", "isinstance") and len(t[2]) == 2 and not t[3]:
+        return _pure_test(t[2][0]) and all(_pure_test(x) for x in (t[2][1][1] if op(t[2][1]) == "tuple" else (t[2][1],)))
+    if o == "tuple":
+        return all(_pure_test(x) for x in t[1])
+    return False
+
+
+_MUTATORS = frozenset("pop popitem append add remove discard update setdefault extend insert clear sort reverse send read readline readlines write writerow writerows seek close next __next__ __setitem__ __delitem__".split())
+
+
+def _effectful(t) -> bool:
+    """May evaluating the test change what a repetition of it sees (consumes an iterator, mutates a container)?"""
+    from .terms import callee_name
+
+    def bad(x):
+        if op(x) in ("yield", "await", "yieldfrom"):
+            return True
+        if op(x) == "call":
+            if x[1] == ("builtin", "next"):
+                return True
+            return callee_name(x) in _MUTATORS
+        return False
+
+    return contains(t, bad)
+
+
+def _or_form(e: ast.IfExp) -> bool:
+    """``x if x else d`` / ``d if not x else x``: the value of ``x or d`` (kept as one term)."""
+    t = e.test
+    if isinstance(t, ast.UnaryOp) and isinstance(t.op, ast.Not):
+        return ast.dump(t.operand) == ast.dump(e.orelse)
+    return ast.dump(t) == ast.dump(e.body)
+
+
+def _has_break(nodes) -> bool:
+    """A ``break`` that belongs to the loop whose body ``nodes`` is."""
+    for n in nodes:
+        if isinstance(n, ast.Break):
+            return True
+        if isinstance(n, (ast.For, ast.AsyncFor, ast.While, ast.FunctionDef, ast.AsyncFunctionDef, ast.Lambda, ast.ClassDef)):
+            if isinstance(n, (ast.For, ast.AsyncFor, ast.While)) and _has_break(n.orelse):
+                return True
+            continue
+        if _has_break(list(ast.iter_child_nodes(n))):
+            return True
+    return False
 
 
 def _len_truth(test, pol):
@@ -378,12 +436,12 @@ class _Builder:
             out[q.name] = self.low.expr(q.default, {})
         return out
 
-    def inline_call(self, t, p: Path, line: int):
+    def inline_call(self, t, p: Path, line: int, tail: bool = False):
         """Execute an inlinable helper in place.  Returns list of (path, value term) or None."""
         if self.owner is None or len(self.inline_stack) >= 3:
             return None
         callee = self.resolve_callee(t)
-        if callee is None or not self.owner.inlinable(callee) or callee.qualname in self.inline_stack:
+        if callee is None or not self.owner.inlinable(callee, tail=tail) or callee.qualname in self.inline_stack:
             return None
         bound = self._bind(callee, t)
         if bound is None:
@@ -609,9 +667,97 @@ class _Builder:
         if inl is not None:
             return [q for q, _ in inl]
         p.events.append(self.E("expr", st.lineno, t))
+        if isinstance(v, ast.Call) and isinstance(v.func, ast.Attribute) and v.func.attr == "sort" and isinstance(v.func.value, ast.Name) and not v.args and v.func.value.id in p.env and op(t) == "call":
+            # xs.sort(key=..)  leaves the name bound to what sorted(xs, key=..) would be
+            p.env[v.func.value.id] = ("call", ("builtin", "sorted"), (t[1][1],), t[3])
         return [p]
 
+    def _lift_ifexp(self, value):
+        """A conditional expression nested in displays / call arguments / operators of ``value`` is lifted to
+        the top:  f({a if c else b})  ==  f({a}) if c else f({b}).  Not through lambdas, comprehensions,
+        short-circuit operators or other conditionals (those evaluate it conditionally or repeatedly)."""
+        if value is None or isinstance(value, ast.IfExp):
+            return value
+        found = []
+
+        def find(n):
+            if found:
+                return
+            if isinstance(n, ast.IfExp):
+                found.append(n)
+                return
+            if isinstance(n, (ast.Lambda, ast.ListComp, ast.SetComp, ast.DictComp, ast.GeneratorExp, ast.BoolOp, ast.NamedExpr, ast.Await, ast.Yield, ast.YieldFrom)):
+                return
+            for c in ast.iter_child_nodes(n):
+                find(c)
+
+        find(value)
+        if not found:
+            return value
+        target = found[0]
+
+        class R(ast.NodeTransformer):
+            def __init__(self, repl):
+                self.repl = repl
+
+            def visit_IfExp(self, n):
+                return self.repl if n is target else self.generic_visit(n)
+
+        import copy
+
+        def with_(repl):
+            # NodeTransformer mutates in place: work on a shallow-rebuilt copy of the spine
+            marker = {}
+
+            def rebuild(n):
+                if n is target:
+                    return repl
+                if not isinstance(n, ast.AST):
+                    return n
+                new = copy.copy(n)
+                for f, v in ast.iter_fields(n):
+                    if isinstance(v, list):
+                        setattr(new, f, [rebuild(x) for x in v])
+                    elif isinstance(v, ast.AST):
+                        setattr(new, f, rebuild(v))
+                return new
+
+            return rebuild(value)
+
+        out = ast.IfExp(test=target.test, body=with_(target.body), orelse=with_(target.orelse))
+        ast.copy_location(out, value)
+        return out
+
+    def _desugar_reduce(self, value):
+        """functools.reduce(f, xs, init) with a named ``f``  ->  (statements of the explicit fold, name of the accumulator)."""
+        if not (isinstance(value, ast.Call) and len(value.args) == 3 and not value.keywords and isinstance(value.args[0], ast.Name)):
+            return None
+        f = value.func
+        try:
+            ft = self.low.expr(f, {})
+        except Exception:  # noqa: BLE001
+            return None
+        if ft != ("ext", "functools.reduce"):
+            return None
+        n = self.low.fresh()
+        acc, x = f"__acc{n}", f"__x{n}"
+        init = ast.Assign(targets=[ast.Name(id=acc, ctx=ast.Store())], value=value.args[2])
+        step = ast.Assign(targets=[ast.Name(id=acc, ctx=ast.Store())], value=ast.Call(func=value.args[0], args=[ast.Name(id=acc, ctx=ast.Load()), ast.Name(id=x, ctx=ast.Load())], keywords=[]))
+        loop = ast.For(target=ast.Name(id=x, ctx=ast.Store()), iter=value.args[1], body=[step], orelse=[])
+        for node in (init, loop):
+            ast.copy_location(node, value)
+            ast.fix_missing_locations(node)
+        return [init, loop], acc
+
     def s_Return(self, st, p):
+        red = self._desugar_reduce(st.value)
+        if red is not None:
+            stmts, acc = red
+            ret = ast.copy_location(ast.Return(value=ast.copy_location(ast.Name(id=acc, ctx=ast.Load()), st)), st)
+            return self.block([*stmts, ret], [p])
+        lifted = self._lift_ifexp(st.value)
+        if lifted is not st.value:
+            st = ast.copy_location(ast.Return(value=lifted), st)
         if isinstance(st.value, ast.IfExp):
             # `return a if c else b`  ==  `if c: return a` / `else: return b`
             synth = ast.If(test=st.value.test, body=[ast.Return(value=st.value.body)], orelse=[ast.Return(value=st.value.orelse)])
@@ -620,7 +766,7 @@ class _Builder:
                 ast.copy_location(sub, st)
             return self.s_If(synth, p)
         t = self.ex(st.value, p) if st.value is not None else NONE
-        inl = self.inline_call(t, p, st.lineno) if op(t) == "call" else None
+        inl = self.inline_call(t, p, st.lineno, tail=not self.inline_stack and not self.cov) if op(t) == "call" else None
         if inl is not None:
             out = []
             for q, val in inl:
@@ -677,7 +823,16 @@ class _Builder:
             self.assign(target.value, value, p, line)
 
     def s_Assign(self, st, p):
-        if isinstance(st.value, ast.IfExp) and len(st.targets) == 1 and isinstance(st.targets[0], ast.Name):
+        red = self._desugar_reduce(st.value)
+        if red is not None:
+            stmts, acc = red
+            fin = ast.copy_location(ast.Assign(targets=st.targets, value=ast.copy_location(ast.Name(id=acc, ctx=ast.Load()), st)), st)
+            return self.block([*stmts, fin], [p])
+        if len(st.targets) == 1 and isinstance(st.targets[0], ast.Name):
+            lifted = self._lift_ifexp(st.value)
+            if lifted is not st.value:
+                st = ast.copy_location(ast.Assign(targets=st.targets, value=lifted), st)
+        if isinstance(st.value, ast.IfExp) and len(st.targets) == 1 and isinstance(st.targets[0], ast.Name) and not _or_form(st.value):
             # `x = a if c else b`  ==  `if c: x = a` / `else: x = b`  (keeps terms free of conditionals)
             mk = lambda v: ast.copy_location(ast.Assign(targets=st.targets, value=v), st)  # noqa: E731
             synth = ast.copy_location(ast.If(test=st.value.test, body=[mk(st.value.body)], orelse=[mk(st.value.orelse)]), st)
@@ -781,22 +936,58 @@ class _Builder:
         return self._branch(st, p, test, pol)
 
     def _branch(self, st, p, test, pol):
+        return self._branch2(p, test, pol, st.lineno, lambda qs: self.block(st.body, qs), lambda qs: self.block(st.orelse, qs))
+
+    def _branch2(self, p, test, pol, lineno, then_fn, else_fn):
         while op(test) in ("not", "truth"):
             if op(test) == "not":
                 pol = not pol
             test = test[1]
         if is_const(test) and isinstance(test[1], bool):
-            return self.block(st.body if (test[1] == pol) else st.orelse, [p])
+            return then_fn([p]) if (test[1] == pol) else else_fn([p])
+        if op(test) in ("and", "or") and len(test[1]) >= 2:
+            # short-circuit evaluation is control flow:  ``if a and b: S else: T``  is
+            # ``if a: (if b: S else: T) else: T``;  ``or`` is its dual; a negated test swaps the branches
+            if not pol:
+                then_fn, else_fn = else_fn, then_fn
+            first = test[1][0]
+            rest = test[1][1] if len(test[1]) == 2 else (op(test), tuple(test[1][1:]))
+            if op(test) == "and":
+                return self._branch2(p, first, True, lineno, lambda qs: [r for q in qs for r in self._branch2(q, rest, True, lineno, then_fn, else_fn)], else_fn)
+            return self._branch2(p, first, True, lineno, then_fn, lambda qs: [r for q in qs for r in self._branch2(q, rest, True, lineno, then_fn, else_fn)])
         # canonical guards: comparisons carry a positive operator, the polarity carries the negation
         neg = {"is not": "is", "!=": "==", "not in": "in"}
         if op(test) == "cmp" and test[1] in neg:
             test = ("cmp", neg[test[1]], test[2], test[3])
             pol = not pol
         test, pol = _len_truth(test, pol)
+        if op(test) == "cmp" and is_const(test[2]) and is_const(test[3]) and test[1] in ("is", "=="):
+            # a comparison of two literals (after copy propagation) is decided
+            a_, b_ = test[2][1], test[3][1]
+            same = (a_ is b_) if (test[1] == "is" and (a_ is None or b_ is None or isinstance(a_, bool) or isinstance(b_, bool))) else (type(a_) is type(b_) and a_ == b_) if test[1] == "==" else None
+            if same is not None:
+                return then_fn([p]) if (same == pol) else else_fn([p])
+        if _pure_test(test):
+            # the same value-level test was already decided on this path: only the consistent arm is feasible
+            for ev in p.events:
+                if ev.kind == "guard" and ev.a == test:
+                    return then_fn([p]) if ev.b == pol else else_fn([p])
+        elif not _effectful(test):
+            # the same test repeated with nothing but tests (and call-free bindings) in between
+            for ev in reversed(p.events):
+                if ev.kind == "guard":
+                    if ev.a == test:
+                        return then_fn([p]) if ev.b == pol else else_fn([p])
+                    if _effectful(ev.a):
+                        break
+                elif ev.kind == "bind" and isinstance(ev.b, tuple) and not contains(ev.b, lambda x: op(x) in ("call", "bound", "yield", "await")):
+                    continue
+                else:
+                    break
         a, b = p, p.fork()
-        a.events.append(self.E("guard", st.lineno, test, pol))
-        b.events.append(self.E("guard", st.lineno, test, not pol))
-        return self.block(st.body, [a]) + self.block(st.orelse, [b])
+        a.events.append(self.E("guard", lineno, test, pol))
+        b.events.append(self.E("guard", lineno, test, not pol))
+        return then_fn([a]) + else_fn([b])
 
     def _assigned_names(self, stmts: list[ast.stmt]) -> set[str]:
         out = set()
@@ -825,8 +1016,59 @@ class _Builder:
                 return None
         return None
 
-    def s_For(self, st, p):
-        it = self.ex(st.iter, p)
+    def _loop_body(self, p, assigned, loop_id, run):
+        """Summarise a loop body with the names it assigns abstracted to loop-carried values - except the names
+        every assignment of which stores the carried value itself (``acc = f(acc, x)`` with f returning its
+        first argument): those keep their value from before the loop."""
+        def mk_env(skip=frozenset()):
+            env = dict(p.env)
+            for n in assigned:
+                if n in env and n not in skip:
+                    env[n] = ("phi", n, loop_id)
+            return env
+
+        body_paths = run(mk_env())
+        binds: dict[str, list] = {}
+
+        def collect(paths):
+            for q in paths:
+                for ev in q.events:
+                    if ev.kind == "bind" and isinstance(ev.a, str):
+                        binds.setdefault(ev.a, []).append(ev.b)
+                    if ev.body:
+                        collect(ev.body)
+
+        collect(body_paths)
+        inv = {n for n in assigned if n in p.env and binds.get(n) and all(b == ("phi", n, loop_id) for b in binds[n])}
+        if inv:
+            body_paths = run(mk_env(frozenset(inv)))
+        return body_paths, inv
+
+    def s_For(self, st, p, it=None):
+        it = self.ex(st.iter, p) if it is None else it
+        if op(it) == "call" and it[1] == ("ext", "itertools.chain.from_iterable") and len(it[2]) == 1 and not it[3] and op(it[2][0]) == "comp" and it[2][0][1] in ("gen", "list") and len(it[2][0][3]) == 1 and not st.orelse and not _has_break(st.body):
+            # for x in chain.from_iterable(E(c) for c in cs if f(c)): body   ==   for c in cs: if f(c): for x in E(c): body
+            comp = it[2][0]
+            ctgt, csrc, cifs = comp[3][0]
+            oid = self.low.fresh()
+            assigned = self._assigned_names(st.body) | {x.id for x in ast.walk(st.target) if isinstance(x, ast.Name)}
+
+            def run(env):
+                paths = [Path([], env, None)]
+                for c in cifs:
+                    def skip(qs):
+                        for q in qs:
+                            q.out = ("continue",)
+                        return qs
+
+                    paths = [r for q in paths for r in (self._branch2(q, c, True, st.lineno, lambda qs: qs, skip) if q.out is None else [q])]
+                return [r for q in paths for r in (self.s_For(st, q, it=comp[2]) if q.out is None else [q])]
+
+            body_paths, inv = self._loop_body(p, assigned, oid, run)
+            p.events.append(self.E("loop", st.lineno, ctgt, csrc, oid, body_paths))
+            for n in assigned - inv:
+                p.env[n] = ("phi", n, oid)
+            return [p]
         if op(it) == "gconst":
             lit = self._gconst_display(it)
             if lit is not None:
@@ -851,16 +1093,18 @@ class _Builder:
                     q.out = None
             return paths
         loop_id = self.low.fresh()
-        assigned = self._assigned_names(st.body) | self._assigned_names([ast.Expr(st.target)] if False else [])
-        env = dict(p.env)
-        for n in assigned:
-            if n in env:
-                env[n] = ("phi", n, loop_id)
-        tgt = self.low.bind_target(st.target, env, None)
-        body_paths = self.block(st.body, [Path([], env, None)])
+        assigned = self._assigned_names(st.body)
+        box = {}
+
+        def run(env):
+            box["tgt"] = self.low.bind_target(st.target, env, None)
+            return self.block(st.body, [Path([], env, None)])
+
+        body_paths, inv = self._loop_body(p, assigned, loop_id, run)
+        tgt = box["tgt"]
         ev = self.E("loop", st.lineno, tgt, it, loop_id, body_paths)
         p.events.append(ev)
-        for n in assigned | {x.id for x in ast.walk(st.target) if isinstance(x, ast.Name)}:
+        for n in (assigned - inv) | {x.id for x in ast.walk(st.target) if isinstance(x, ast.Name)}:
             p.env[n] = ("phi", n, loop_id)
         # a ``return`` inside the body stays inside ev.body; the loop may also finish normally
         if st.orelse:
